@@ -27,8 +27,8 @@ def _hist(prop, audits, profile, rule, nontrivial, deciding, anchors, quick, tho
     }
 
 
-Q = lambda cases, nops=(30, 60), **kw: dict(dict(cases=cases, nops=nops, audit_every=(3, 5, 8), time_cap=120, watchdog=300, min_cases=max(4, cases // 4), wide=300, big=2300), **kw)
-T = lambda cases, nops=(40, 80, 150, 300), **kw: dict(dict(cases=cases, nops=nops, audit_every=(1, 3, 5, 10), time_cap=800, watchdog=1500, min_cases=max(8, cases // 4), wide=700, big=5200), **kw)
+Q = lambda cases, nops=(30, 60), **kw: dict(dict(cases=cases, nops=nops, audit_every=(3, 5, 8), time_cap=120, watchdog=1200, min_cases=max(4, cases // 8), wide=300, big=2300, sorted_chain=1100), **kw)
+T = lambda cases, nops=(40, 80, 150, 300), **kw: dict(dict(cases=cases, nops=nops, audit_every=(1, 3, 5, 10), time_cap=800, watchdog=3000, min_cases=max(8, cases // 16), wide=700, big=5200, sorted_chain=1500), **kw)
 
 PROPS = {}
 
@@ -223,8 +223,8 @@ PROPS["C09"] = _paging(
     lambda f: f["we"] >= 1 and f["pages"] >= 4,
     ["C09_paginations", "C09_multi_call_paginations", "C09_resumes", "C09_codec_roundtrips"],
     ["LRUTrie.webentity_inorder_iter", "Traph.paginate_webentity_pages", "build_pagination_token", "parse_pagination_token"],
-    dict(cases=640, nops=(20, 40), time_cap=120, watchdog=400, min_cases=100, w_random=3, w_shape=1, codec_len=6, codec_random=300, deep_n=1200),
-    dict(cases=20000, nops=(25, 50, 90), time_cap=800, watchdog=1500, min_cases=400, w_random=3, w_shape=1, exhaustive_shapes=6,
+    dict(cases=640, nops=(20, 40), time_cap=120, watchdog=1200, min_cases=60, w_random=3, w_shape=1, codec_len=6, codec_random=300, deep_n=1200),
+    dict(cases=20000, nops=(25, 50, 90), time_cap=800, watchdog=3000, min_cases=400, w_random=3, w_shape=1, exhaustive_shapes=6,
          codec_len=8, codec_random=5000, deep_n=1200),
 )
 
@@ -240,8 +240,8 @@ PROPS["C10"] = _paging(
     lambda f: f["we"] >= 1 and f["pairs"] >= 2,
     ["C10_paginations", "C10_multi_call_paginations", "C10_resumes"],
     ["LRUTrie.webentity_inorder_iter", "Traph.paginate_webentity_pagelinks", "Traph.get_webentity_pagelinks_iter"],
-    dict(cases=640, nops=(20, 40), time_cap=120, watchdog=400, min_cases=100, w_random=3, w_shape=1, deep_n=1200),
-    dict(cases=20000, nops=(25, 50, 90), time_cap=800, watchdog=1500, min_cases=400, w_random=3, w_shape=1, exhaustive_shapes=6, deep_n=1200),
+    dict(cases=640, nops=(20, 40), time_cap=120, watchdog=1200, min_cases=60, w_random=3, w_shape=1, deep_n=1200),
+    dict(cases=20000, nops=(25, 50, 90), time_cap=800, watchdog=3000, min_cases=400, w_random=3, w_shape=1, exhaustive_shapes=6, deep_n=1200),
 )
 
 PROPS["C17"] = {
@@ -257,8 +257,8 @@ PROPS["C17"] = {
     "deciding_counters": ["C17_lrus", "C17_closure_checks", "C17_end_to_end_sites", "contract_evals:helpers.lru_variations",
                           "contract_evals:traph.lru_variations(bound name)"],
     "anchors": ["lru_variations", "https_variation", "Traph.expand_prefix"],
-    "quick": dict(max_hosts=3, max_paths=1, random=24000, e2e=160, shards=8, watchdog=300, min_cases=500),
-    "thorough": dict(max_hosts=3, max_paths=2, random=1200000, e2e=6000, shards=16, watchdog=1500, min_cases=5000),
+    "quick": dict(max_hosts=3, max_paths=1, random=24000, e2e=160, shards=8, watchdog=1200, min_cases=500),
+    "thorough": dict(max_hosts=3, max_paths=2, random=1200000, e2e=6000, shards=16, watchdog=3000, min_cases=5000),
     "level": "exploration",
     "assumptions": ["the enumerated grammar is bounded (H=3 hosts, P<=2 path stems from 7 values); longer LRUs are sampled only"],
 }
@@ -281,8 +281,8 @@ PROPS["C11"] = _life(
     lambda f: f["pages"] >= 6 and f["we"] >= 1,
     ["battery_comparisons", "reports_compared", "C11_reopens", "C11_clears"],
     ["Traph.__init__", "Traph.close", "Traph.clear", "FileStorage.check_for_corruption", "LRUTrieHeader.read"],
-    dict(cases=96, nops=(15, 30), audit_every=(3, 5), time_cap=150, watchdog=400, min_cases=24, n_reopens=(1, 2, 4)),
-    dict(cases=1200, nops=(12, 20, 25, 40, 80), audit_every=(1, 3, 5), time_cap=900, watchdog=1600, min_cases=200, n_reopens=(2, 4, 10, 16), every_position=True),
+    dict(cases=96, nops=(15, 30), audit_every=(3, 5), time_cap=150, watchdog=1200, min_cases=12, n_reopens=(1, 2, 4), big=2300),
+    dict(cases=1200, nops=(12, 20, 25, 40, 80), audit_every=(1, 3, 5), time_cap=900, watchdog=3000, min_cases=200, n_reopens=(2, 4, 10, 16), every_position=True, big=5200),
 )
 
 PROPS["C15"] = _life(
@@ -296,8 +296,8 @@ PROPS["C15"] = _life(
     lambda f: f["pages"] >= 6,
     ["battery_comparisons", "reports_compared", "C15_store_comparisons", "C15_mmap_blocks_compared"],
     ["MemoryStorage.read", "MemoryStorage.write", "FileStorage.read", "MemMapStorage.read", "FileStorage.map"],
-    dict(cases=96, nops=(15, 30), audit_every=(3, 5), time_cap=150, watchdog=400, min_cases=24),
-    dict(cases=1200, nops=(20, 40, 80), audit_every=(1, 3, 5), time_cap=900, watchdog=1600, min_cases=200),
+    dict(cases=96, nops=(15, 30), audit_every=(3, 5), time_cap=150, watchdog=1200, min_cases=12, big=4300),
+    dict(cases=1200, nops=(20, 40, 80), audit_every=(1, 3, 5), time_cap=900, watchdog=3000, min_cases=200, big=9000),
 )
 
 PROPS["C14"] = {
@@ -313,8 +313,8 @@ PROPS["C14"] = {
     "nontrivial": lambda f: f["pages"] >= 6 and f["we"] >= 1 and f["links"] >= 1,
     "deciding_counters": ["C14_windows", "C14_calls_succeeded", "C14_calls_refused_with_library_error", "C14_iterator_steps"],
     "anchors": ["LRUTrie.follow_lru", "LRUTrie.lru_node", "Traph.get_potential_prefix", "LRUTrieNode.write", "LRUTrie.add_lru"],
-    "quick": dict(cases=128, nops=(15, 30), points=2, time_cap=150, watchdog=400, min_cases=32),
-    "thorough": dict(cases=4000, nops=(20, 40, 80), points=3, time_cap=900, watchdog=1600, min_cases=150),
+    "quick": dict(cases=128, nops=(15, 30), points=2, time_cap=150, watchdog=1200, min_cases=16),
+    "thorough": dict(cases=4000, nops=(20, 40, 80), points=3, time_cap=900, watchdog=3000, min_cases=150),
     "level": "exploration",
     "assumptions": ["the list of read-only methods is explicit (vt/battery.py); an unclassified public method makes the run inconclusive",
                     "a foreign (non-library) exception in a query is counted, not judged: the statement covers success and library errors"],
@@ -335,8 +335,8 @@ PROPS["C18"] = {
     "nontrivial": lambda f: f["pages"] >= 3,
     "deciding_counters": ["C18_cuts", "C18_cuts_opened", "C18_cuts_refused", "C18_cuts_consistent", "C18_reconstructions_validated"],
     "anchors": ["Traph.__init__", "FileStorage.check_for_corruption", "LRUTrieNode.write", "LinkStore.add_links", "LRUTrie.add_lru"],
-    "quick": dict(cases=48, nops=(5, 10, 16), byte_offsets=3, validate=1, time_cap=200, watchdog=500, min_cases=12),
-    "thorough": dict(cases=400, nops=(5, 12, 20, 40), byte_offsets="all", validate=3, time_cap=1000, watchdog=1700, min_cases=60),
+    "quick": dict(cases=48, nops=(5, 10, 16), byte_offsets=3, validate=1, time_cap=200, watchdog=1200, min_cases=8),
+    "thorough": dict(cases=400, nops=(5, 12, 20, 40), byte_offsets="all", validate=3, time_cap=1000, watchdog=3000, min_cases=60),
     "level": "fault_enumeration",
     "level_text": "Exhaustive enumeration of crash points per recorded history (every logged write, every byte of every append) under the "
                   "statement's fault model; the histories themselves are sampled.",
@@ -360,9 +360,9 @@ PROPS["C16"] = {
     "anchors": ["Traph.index_batch_crawl_iter", "Traph.add_webentity_creation_rule_iter", "TraphIteratorState.should_yield",
                 "Traph.get_webentities_links_iter", "Traph.get_webentity_pages_iter", "LRUTrieNode.refresh"],
     "quick": dict(programs=260, schedules_per_program=10, exhaustive_limit=400, exhaustive_share=0.1, max_sources=3, max_targets=3,
-                  time_cap=100, watchdog=400, min_cases=500),
+                  time_cap=100, watchdog=1200, min_cases=250),
     "thorough": dict(programs=3000, schedules_per_program=24, exhaustive_limit=20000, exhaustive_share=0.3, max_sources=3, max_targets=4,
-                     time_cap=1000, watchdog=1700, min_cases=8000),
+                     time_cap=1000, watchdog=3000, min_cases=8000),
     "level": "exploration",
     "assumptions": ["schedules are explored at the forced yield points of the existing generator structure; preemptive threads are out of scope (the code has none)",
                     "network queries: an aggregated pair whose two ends never resolved simultaneously (cross-moment aggregate) is inside the upper bracket by construction and therefore not judged"],
